@@ -293,6 +293,27 @@ func (v *Verifier) verifyFunc(name string) *FuncResult {
 	if con != nil {
 		x.props = con.Props
 	}
+	// reference-valued fields of the package's struct types are known up front, so that closure
+	// facts after a havoc do not depend on whether the field was accessed earlier on the path
+	if fn.Pkg != nil && fn.Pkg.Pkg != nil {
+		sc := fn.Pkg.Pkg.Scope()
+		for _, nm := range sc.Names() {
+			tn, ok := sc.Lookup(nm).(*types.TypeName)
+			if !ok {
+				continue
+			}
+			stt, ok := tn.Type().Underlying().(*types.Struct)
+			if !ok {
+				continue
+			}
+			for i := 0; i < stt.NumFields(); i++ {
+				f := stt.Field(i)
+				if !isStruct(f.Type()) && !isArray(f.Type()) {
+					x.notePtr(typeName(tn.Type())+"."+f.Name(), f.Type())
+				}
+			}
+		}
+	}
 	// location functions mentioned by the prelude are always declared
 	x.preludeLoc = map[string]bool{}
 	for sym := range x.usedSymbols(v.preludeText) {
